@@ -83,3 +83,35 @@ Example no_fault_example :
 Proof.
   split; [repeat constructor|]. intros E HE. rewrite (request_call_ref E HE) by repeat constructor. reflexivity.
 Qed.
+
+(* ---- tie to the source: every statement above is about Model.v / Api.v; Proofs/Src*.v prove that the
+   functions TRANSLATED from /repo/src/lib.rs on this run (Generated/Lib.v, LibApi.v) compute the same
+   results, for every environment whose scanners only move forward (all concrete backends do), so each
+   theorem of this file holds of the translated source by rewriting with `source_tie`.  Only the entry-point
+   families this property speaks about are imported (Req, Resp, PH, Chunk) ---- *)
+From HV Require Import Backends.
+From HV.Proofs Require Import Mono BackendsFwd SrcReq SrcResp SrcPH SrcChunk.
+Theorem source_tie : forall E, env_fwd E -> request_source_is_model E /\ response_source_is_model E /\ headers_source_is_model E /\ chunk_source_is_model.
+Proof. intros E HE. repeat split; first [apply src_tie_request | apply src_tie_response | apply src_tie_headers | apply src_tie_chunk]; exact HE. Qed.
+Print Assumptions source_tie.
+Theorem source_tie_backends : forall W be, request_source_is_model (env_of W be) /\ response_source_is_model (env_of W be) /\ headers_source_is_model (env_of W be) /\ chunk_source_is_model.
+Proof. intros W be. apply source_tie, backends_fwd. Qed.
+Print Assumptions source_tie_backends.
+
+(* the translated source never faults: no guard the translator emitted (u8/u16/i32/u64 overflow, usize
+   underflow, slice index) fires, no checked cursor operation fails, every loop ends within its fuel *)
+Theorem src_request_no_fault : forall E, env_ok E -> env_fwd E -> forall e cf buf arr rq f, bytes_ok buf ->
+  fst (fst (src_request_call E e cf buf arr rq)) <> Faulted f.
+Proof. intros E HE HF e cf buf arr rq f Hb. rewrite src_request_call_eq by exact HF. apply request_no_fault; assumption. Qed.
+Print Assumptions src_request_no_fault.
+Theorem src_response_no_fault : forall E, env_ok E -> env_fwd E -> forall e cf buf arr rp f, bytes_ok buf ->
+  fst (fst (src_response_call E e cf buf arr rp)) <> Faulted f.
+Proof. intros E HE HF e cf buf arr rp f Hb. rewrite src_response_call_eq by exact HF. apply response_no_fault; assumption. Qed.
+Print Assumptions src_response_no_fault.
+Theorem src_headers_no_fault : forall E, env_ok E -> env_fwd E -> forall src dst f, bytes_ok src ->
+  fst (fst (src_parse_headers E src dst)) <> Faulted f.
+Proof. intros E HE HF src dst f Hb. rewrite src_parse_headers_eq by exact HF. apply headers_no_fault; assumption. Qed.
+Print Assumptions src_headers_no_fault.
+Theorem src_chunk_no_fault : forall dbg buf f, fst (src_parse_chunk_size dbg buf) <> Faulted f.
+Proof. intros. rewrite src_parse_chunk_size_eq. apply chunk_no_fault. Qed.
+Print Assumptions src_chunk_no_fault.
